@@ -126,6 +126,8 @@ class ExprMixin:
         name = rd.get('name')
         if kind == 'VarDecl' and name == 'nullopt' and rd['id'] not in self.ix.by_id:
             return '0'
+        if kind == 'VarDecl' and name == 'npos' and rd['id'] not in self.ix.by_id:
+            return '((uint64_t)-1)'
         if kind in ('VarDecl', 'ParmVarDecl', 'BindingDecl'):
             loc = self.cur['locals'].get(rd['id'])
             if loc is not None:
